@@ -380,9 +380,20 @@ def _multi(level):
     return build
 
 
-def _num_cats(dates):
+def _num_cats(dates, early=False):
     def build(s):
-        cd = cat_data(cats=[datetime.date(2020, 1, 1), datetime.date(2020, 1, 2)] if dates else [1, 2])
+        labels = [datetime.date(2020, 1, 1), datetime.date(2020, 1, 2)] if dates else [1, 2]
+        if early:
+            # the format is set on the (still empty) categories first, the categories are added one by one afterwards
+            from pptx.chart.data import CategoryChartData
+
+            cd = CategoryChartData()
+            cd.categories.number_format = s
+            for lab in labels:
+                cd.add_category(lab)
+            cd.add_series("S1", (1.5, 2))
+            return cd
+        cd = cat_data(cats=labels)
         cd.categories.number_format = s
         return cd
 
@@ -521,6 +532,7 @@ def _register():
     tick = lambda prs, h: chart_of(prs, h).category_axis.tick_labels.number_format  # noqa: E731
     # numeric categories: only c:cat//c:formatCode (the category axis keeps "General"); date categories: also c:dateAx/c:numFmt/@formatCode
     sink("number-format:numeric-categories", "categories-number-format", _chart(_num_cats(False)), None, CHART, "//c:ser[1]/c:cat//c:formatCode/text()")
+    sink("number-format:numeric-categories:set-before-the-categories", "categories-number-format", _chart(_num_cats(False, early=True)), None, CHART, "//c:ser[1]/c:cat//c:formatCode/text()")
     for ct in ("LINE", "AREA", "BAR_CLUSTERED"):  # the three chart writers that emit c:dateAx, one template each
         sink("number-format:date-categories:" + ct.lower(), "date-axis-number-format", _chart(_num_cats(True), ct), tick, CHART, "//c:dateAx/c:numFmt/@formatCode")
     sink("number-format:tick-labels", "axis-number-format", _chart(lambda s: cat_data(), after=_set(lambda ch: ch.value_axis.tick_labels, "number_format")),
